@@ -6,7 +6,7 @@ from hypothesis import strategies as st
 from reactivex.internal import ArgumentOutOfRangeException
 
 from vlib.core import FAIL, OK, SKIP, Check
-from vlib.vtsched import Inconclusive, VTModel, clock_of, enc_abs, enc_rel, make
+from vlib.vtsched import Inconclusive, VTModel, clock_of, enc_abs, enc_rel, escaped, make
 
 PROPERTY_ID = "C28"
 LEVEL = "exploration"
@@ -219,6 +219,8 @@ def _run(case):
                 raise AssertionError(cmd)
         except Inconclusive:
             return SKIP("spin>=90-at-one-instant")
+        except Exception as e:  # noqa: BLE001 - nothing but ArgumentOutOfRangeException may escape a scheduler call
+            return escaped(e, f"{kind}.{k}", f"cmd={cmd} case={case}", cls)
         if expect is not None:
             cls_name = {"range": "backwards-raises", "noop": "advance-zero-noop"}.get(expect)
             if cls_name:
